@@ -18,6 +18,7 @@ type Case struct {
 	Ref   *RefStore
 	Trace []string
 	Fails *[]lib.OracleFail
+	Spell *lib.RNG // when set, Do draws the spelling of each mutating call (mutable documents, cancelled context)
 }
 
 func NewCase(c *lib.Ctx, sc *lib.Script, fails *[]lib.OracleFail, withRef bool) *Case {
@@ -38,10 +39,33 @@ func (k *Case) Fail(class, what string) {
 
 // Do executes the operation on the store, records the model line, and checks the answer against the reference.
 func (k *Case) Do(o Op) Result {
+	// spellings of the same call (Op.MutDocs, Op.DeadCtx), drawn per case when the harness asked for them
+	if k.Spell != nil {
+		switch o.Kind {
+		case "ins":
+			o.MutDocs = k.Spell.Chance(1, 4)
+			o.DeadCtx = k.Spell.Chance(1, 6)
+		case "upd", "del":
+			o.DeadCtx = k.Spell.Chance(1, 6)
+		}
+		if o.MutDocs {
+			k.C.Hit("spelling:mutable-documents")
+		}
+		if o.DeadCtx {
+			k.C.Hit("spelling:cancelled-context")
+		}
+	}
 	res := Exec(k.St, o)
 	line, out := o.Line(), res.Canon(o)
 	k.Sc.Op(line, out)
-	k.Trace = append(k.Trace, line+"\t=> "+out)
+	note := ""
+	if o.MutDocs {
+		note += " [documents handed over as mutable maps]"
+	}
+	if o.DeadCtx {
+		note += " [called with an already cancelled context]"
+	}
+	k.Trace = append(k.Trace, line+note+"\t=> "+out)
 	k.C.Hit("op:" + o.Kind)
 	k.C.Hit("result:" + res.Kind)
 	if res.Kind == "err" {
